@@ -137,7 +137,14 @@ func execDelay(t *testing.T, tr *vrt.Tracer, sc delayScenario, ex *vrt.Explorer,
 	}
 	vrt.Uninstall()
 	cancel()
-	wg.Wait()
+	ended := make(chan struct{})
+	go func() { wg.Wait(); close(ended) }()
+	select {
+	case <-ended:
+	case <-time.After(2 * time.Second):
+		// the forwarding loop does not end (it is stuck outside its select): what it failed to
+		// forward is already recorded at the rest point; leave the goroutine behind
+	}
 	// hand-ins still blocked on the notification channel (the loop is gone): receive them away
 	for {
 		select {
@@ -227,7 +234,7 @@ func TestVerifDelayFilterFree(t *testing.T) {
 			tr.Emit(vrt.M{"ev": "reset", "delay": dus, "scenario": fmt.Sprintf("free-%d-%d", dus, producers)})
 			ctx, cancel := context.WithCancel(context.Background())
 			var wg sync.WaitGroup
-			panicked := false
+			panicked, stuck := false, false
 			wg.Add(1)
 			go func() {
 				defer wg.Done()
@@ -278,6 +285,13 @@ func TestVerifDelayFilterFree(t *testing.T) {
 							tr.Emit(vrt.M{"ev": "arrdone", "id": id})
 							mu.Unlock()
 						case <-ctx.Done():
+						case <-time.After(3 * time.Second):
+							// the hand-in does not return: the forwarding loop is no longer taking arrivals;
+							// stop producing, what is missing shows at the rest point
+							mu.Lock()
+							panicked = true
+							stuck = true
+							mu.Unlock()
 						}
 						arrMu.Unlock()
 						switch r.Intn(4) {
@@ -316,14 +330,19 @@ func TestVerifDelayFilterFree(t *testing.T) {
 			for _, d := range deps {
 				tr.Emit(vrt.M{"ev": "dep", "id": d.id, "t": d.us, "intact": d.intact, "late": true})
 			}
-			if panicked {
+			if panicked && !stuck {
 				tr.Emit(vrt.M{"ev": "panic"})
 			} else {
 				tr.Emit(vrt.M{"ev": "rest"})
 			}
 			mu.Unlock()
 			cancel()
-			wg.Wait()
+			ended := make(chan struct{})
+			go func() { wg.Wait(); close(ended) }()
+			select {
+			case <-ended:
+			case <-time.After(2 * time.Second): // the loop is stuck outside its select; leave it behind
+			}
 		}
 	}
 	t.Logf("events=%d", tr.N)
